@@ -6,7 +6,7 @@ Utility functions for helping generate input problems.
 
 import random
 from dataclasses import dataclass
-from typing import Any, List, Optional, Set, Tuple, TypeVar, Union, cast
+from typing import Any, List, Optional, Tuple, TypeVar, Union, cast
 
 from .types import NumberType
 
@@ -107,6 +107,10 @@ def rand_var(common: bool = False) -> str:
     return variables[random.randint(0, len(variables) - 1)]
 
 
+def _variable_pool(common: bool = False) -> List[str]:
+    return common_variables if common is True else variables
+
+
 def maybe_var(
     percent_chance: NumberType = 80,
     common_var: bool = False,
@@ -189,18 +193,12 @@ def get_rand_vars(
         exclude_vars = []
     if num_vars > 25:
         raise ValueError("out of range: there are only twenty-six variables")
-    rand_vars: Set[str] = set()
-    iters = 0
-    while len(rand_vars) < num_vars:
-        _rand = rand_var(common_variables)
-        if _rand not in exclude_vars:
-            rand_vars.add(_rand)
-        iters += 1
-        if iters > num_vars * 10:
-            raise ValueError(
-                f"Unable to fulfill request for {num_vars} random variables"
-            )
-    out = list(rand_vars)
+    pool_vars = _variable_pool(common_variables)
+    available = [v for v in pool_vars if v not in exclude_vars]
+    if num_vars > len(available):
+        raise ValueError(f"Unable to fulfill request for {num_vars} random variables")
+    # Draw without replacement so that a satisfiable request always succeeds
+    out = random.sample(available, num_vars)
     random.shuffle(out)
     return out
 
@@ -476,6 +474,8 @@ def gen_combine_terms_in_place(
     """
 
     total_terms = random.randint(min_terms, max_terms)
+    # Every noise term needs its own variable, distinct from the focus variable
+    total_terms = min(total_terms, len(variables) + 1)
     var = rand_var()
     power_chance = 80 if powers is True else 0
     power = maybe_power(power_chance)
